@@ -123,8 +123,16 @@ var specLeiosNotify = &specProto{Name: "leiosnotify", Init: "Idle", States: map[
 	"Done": {agNone, nil},
 }}
 
+// leios-votes with one vote per request (the harness configures RequestNextCount 1): like
+// leios-notify, only used to drive a conforming raw responder in ADV-CALLS.
+var specLeiosVotes = &specProto{Name: "leiosvotes", Init: "Idle", States: map[string]specState{
+	"Idle": {agClient, []specTrans{{0, 0, "Busy", "VotesRequestNext"}, {2, 0, "Done", "Done"}}},
+	"Busy": {agServer, []specTrans{{1, 0, "Idle", "Vote"}}},
+	"Done": {agNone, nil},
+}}
+
 func init() {
-	for _, sp := range []*specProto{specLeiosNotify, specHandshake, specChainSync, specBlockFetch, specTxSubmission, specKeepAlive, specLocalTxSubmission, specLocalStateQuery, specLocalTxMonitor, specPeerSharing} {
+	for _, sp := range []*specProto{specLeiosVotes, specLeiosNotify, specHandshake, specChainSync, specBlockFetch, specTxSubmission, specKeepAlive, specLocalTxSubmission, specLocalStateQuery, specLocalTxMonitor, specPeerSharing} {
 		seen := map[[2]int]bool{}
 		for _, name := range sortedKeys(sp.States) {
 			for _, t := range sp.States[name].Trans {
